@@ -1087,6 +1087,7 @@ pub fn run(ctx: Ctx) -> ! {
     let distinct_outcomes = total.outcomes.len() as u64;
     let n_viol: u64 = total.viol.values().map(|v| v.2).sum();
     let n_sigs = total.viol.len();
+    let by_sig: Vec<Json> = total.viol.iter().map(|(s, v)| json!({"signature": s, "violating_cases": v.2})).collect();
     total.flush(&ctx);
     println!(
         "C36 summary: {} contour calls over {} mask sizes, {} drawing calls in {} families ({:.1}s), {} distinct outcomes, {} violating cases in {} signature(s)",
@@ -1111,6 +1112,7 @@ pub fn run(ctx: Ctx) -> ! {
             "excluded_rule": "Polygon::fill_iter on polygons whose vertices all share one x and span >= 2 rows (most such calls spin for ~2^32 iterations per row, see FINDINGS.md) is enumerated only on the sub-lattice stated per family (axes[].zero_width_tall_polygons_enumerated_only_with_all_coords_in); everything else in the stated box is enumerated",
             "axes": axes,
             "counts": counts,
+            "violating_cases_by_signature_exact": by_sig,
             "distinct_outcomes": distinct_outcomes,
             "stuck_watchdog_ms": STUCK.as_millis() as u64,
         }),
